@@ -77,5 +77,75 @@ PacketInTree(pkind, ks, tag) ==
   [T |-> "PacketIn", Header |-> H(tag), BufferId |-> V(tag, 4), TotalLen |-> V(tag + 1, 2), Reason |-> <<tag % 3>>, TableId |-> V(tag + 2, 1), Cookie |-> V(tag + 3, 8),
    Match |-> MatchOf(ks, tag), Data |-> Packet(pkind, tag)]
 MpReplyTree(kind, n, tag) == [T |-> "MultipartReply", Header |-> H(tag), Type |-> <<0, MpType(kind)>>, Flags |-> <<0, tag % 2>>, Body |-> StatsBody(kind, n, tag)]
+
+\* ---------------------------------------------------------------- the same kinds built through the Go API (elements with ops)
+\* these encoders do not stamp the header length: the caller sets it (LAYOUTS.md section 8)
+HdrOps(n, type, xid, len) == <<Set(n, "Header.Type", <<type>>), Set(n, "Header.Xid", xid), Set(n, "Header.Length", BE16(len))>>
+SetF(n, t, fields) == [i \in DOMAIN fields |-> Set(n, fields[i], t[fields[i]])]
+PortOps(n, prefix, t) == [i \in 1..11 |-> Set(n, prefix \o (<<"PortNo", "HWAddr", "Name", "Config", "State", "Curr", "Advertised", "Supported", "Peer", "CurrSpeed", "MaxSpeed">>)[i],
+                                              t[(<<"PortNo", "HWAddr", "Name", "Config", "State", "Curr", "Advertised", "Supported", "Peer", "CurrSpeed", "MaxSpeed">>)[i]])]
+FieldEls(ks, tag) == [i \in DOMAIN ks |-> MF("f" \o ToString(i), ks[i][1], tag + i, ks[i][2])]
+BuiltKinds == {"error0", "error64", "experror", "features", "getconfig", "flowremoved", "portstatus", "packetin", "mpdesc", "mpflow", "mpaggr", "tlvreply2", "phyport"}
+Built(kind, tag) ==
+  CASE kind \in {"error0", "error64"} ->
+         LET t == SwTree(kind, tag) IN
+         El("m", t, <<New("m", "NewErrorMsg", <<>>), New("h", "NewOfp13Header", <<>>), Set("m", "Header", Ref("h"))>> \o HdrOps("m", 1, t.Header.Xid, Len(Enc(t)))
+                     \o <<Set("m", "Type", t.Type), Set("m", "Code", t.Code), Set("m", "Data", t.Data.B)>>)
+    [] kind = "experror" ->
+         LET t == SwTree(kind, tag) IN
+         El("m", t, <<New("m", "NewBundleError", <<>>)>> \o HdrOps("m", 1, t.Header.Xid, Len(Enc(t))) \o <<Set("m", "Code", t.Code), Set("m", "Data", t.Data.B)>>)
+    [] kind = "features" ->
+         LET t == SwTree(kind, tag) IN
+         El("m", t, <<New("m", "NewFeaturesReply", <<>>), Set("m", "Xid", t.Header.Xid)>> \o SetF("m", t, <<"DPID", "Buffers", "NumTables", "AuxilaryId", "Capabilities", "Actions">>))
+    [] kind = "getconfig" ->
+         LET t == SwTree(kind, tag) IN
+         El("m", t, <<NewT("m", "SwitchConfig"), New("h", "NewOfp13Header", <<>>), Set("m", "Header", Ref("h")), Set("m", "Header.Type", <<8>>), Set("m", "Header.Xid", t.Header.Xid),
+                      Set("m", "Flags", t.Flags), Set("m", "MissSendLen", t.MissSendLen)>>)
+    [] kind = "flowremoved" ->
+         LET ks == << <<1, FALSE>>, <<4, FALSE>>, <<8, TRUE>> >>  fs == FieldEls(ks, tag)
+             t == [SwTree(kind, tag) EXCEPT !.Match = Match(fs)] IN
+         El("m", t, OpsOf(fs) \o <<New("m", "NewFlowRemoved", <<>>)>> \o HdrOps("m", 11, t.Header.Xid, Len(Enc(t)))
+                     \o SetF("m", t, <<"Cookie", "Priority", "Reason", "TableId", "DurationSec", "DurationNSec", "IdleTimeout", "HardTimeout", "PacketCount", "ByteCount">>)
+                     \o [i \in DOMAIN fs |-> CallP("m", "Match", "AddField", <<Ref(fs[i].n)>>)])
+    [] kind = "portstatus" ->
+         LET t == SwTree(kind, tag) IN
+         El("m", t, <<New("m", "NewPortStatus", <<>>), Set("m", "Header.Type", <<12>>), Set("m", "Header.Xid", t.Header.Xid), Set("m", "Reason", t.Reason)>> \o PortOps("m", "Desc.", t.Desc))
+    [] kind = "phyport" ->
+         LET t == PortTree(tag) IN El("m", t, <<New("m", "NewPhyPort", <<>>)>> \o PortOps("m", "", t))
+    [] kind = "packetin" ->
+         LET pk == P!EthEl("e", 2, 0, 9, <<8, 0>>, P!Ip4El("p", 4, 5, 3, 1, 2, 0, 17, tag, 12), tag)
+             fs == FieldEls(<< <<1, FALSE>>, <<16, TRUE>> >>, tag)
+             t == [T |-> "PacketIn", Header |-> H(tag), BufferId |-> V(tag, 4), TotalLen |-> V(tag + 1, 2), Reason |-> <<1>>, TableId |-> V(tag + 2, 1), Cookie |-> V(tag + 3, 8),
+                   Match |-> Match(fs), Data |-> pk.tree] IN
+         El("m", t, pk.ops \o OpsOf(fs) \o <<New("m", "NewPacketIn", <<>>)>> \o HdrOps("m", 10, t.Header.Xid, Len(Enc(t)))
+                     \o SetF("m", t, <<"BufferId", "TotalLen", "Reason", "TableId", "Cookie">>)
+                     \o [i \in DOMAIN fs |-> CallP("m", "Match", "AddField", <<Ref(fs[i].n)>>)] \o <<Set("m", "Data", Ref(pk.n))>>)
+    [] kind \in {"mpdesc", "mpflow", "mpaggr"} ->
+         LET recs == CASE kind = "mpdesc" ->
+                            LET d == StatsBody("desc", 1, tag)[1] IN
+                            << El("r1", d, <<New("r1", "NewDescStats", <<>>)>> \o SetF("r1", d, <<"MfrDesc", "HWDesc", "SWDesc", "SerialNum", "DPDesc">>)) >>
+                       [] kind = "mpaggr" ->
+                            LET a == StatsBody("aggregate", 1, tag)[1] IN
+                            << El("r1", a, <<New("r1", "NewAggregateStats", <<>>)>> \o SetF("r1", a, <<"PacketCount", "ByteCount", "FlowCount">>)) >>
+                       [] kind = "mpflow" ->
+                            [j \in 1..2 |->
+                               LET fs == FieldEls(<< <<DecMF(tag + j), FALSE>> >>, tag + 40 * j)
+                                   is == IF j = 1 THEN <<Goto("g" \o ToString(j), tag)>> ELSE <<InstrActs("i" \o ToString(j), "apply", << <<LeafAct("a" \o ToString(j), "output", tag), FALSE>> >>), Goto("g" \o ToString(j), tag + 1)>>
+                                   r == "r" \o ToString(j)
+                                   fsn == [i \in DOMAIN fs |-> [fs[i] EXCEPT !.n = r \o fs[i].n, !.ops = <<[fs[i].ops[1] EXCEPT !.as = r \o fs[i].n]>>]]
+                                   t0 == [FlowStatsTree(<<>>, TreesOf(is), tag + 20 * j) EXCEPT !.Match = Match(fsn)]
+                               IN El(r, t0, OpsOf(fsn) \o OpsOf(is) \o <<New(r, "NewFlowStats", <<>>), Set(r, "Length", BE16(Len(EncStats(t0))))>>
+                                          \o SetF(r, t0, <<"TableId", "DurationSec", "DurationNSec", "Priority", "IdleTimeout", "HardTimeout", "Flags", "Cookie", "PacketCount", "ByteCount">>)
+                                          \o [i \in DOMAIN fsn |-> CallP(r, "Match", "AddField", <<Ref(fsn[i].n)>>)]
+                                          \o <<Set(r, "Instructions", RefsOf(is))>>)]
+             mt == CASE kind = "mpdesc" -> 0 [] kind = "mpflow" -> 1 [] kind = "mpaggr" -> 2
+             t == [T |-> "MultipartReply", Header |-> H(tag), Type |-> <<0, mt>>, Flags |-> <<0, 1>>, Body |-> TreesOf(recs)] IN
+         El("m", t, OpsOf(recs) \o <<NewT("m", "MultipartReply"), New("h", "NewOfp13Header", <<>>), Set("m", "Header", Ref("h")), Set("m", "Header.Type", <<19>>),
+                                     Set("m", "Header.Xid", t.Header.Xid), Set("m", "Type", t.Type), Set("m", "Flags", t.Flags), Set("m", "Body", RefsOf(recs))>>)
+    [] kind = "tlvreply2" ->
+         LET t == SwTree(kind, tag)  m1 == TlvMapEl("t1", tag + 2)  m2 == TlvMapEl("t2", tag + 9) IN
+         El("m", t, m1.ops \o m2.ops \o <<NewT("d", "TLVTableReply"), Set("d", "MaxSpace", t.VendorData.MaxSpace), Set("d", "MaxFields", t.VendorData.MaxFields),
+                                         Set("d", "TlvMaps", <<Ref("t1"), Ref("t2")>>), New("m", "NewNXTVendorHeader", <<<<0, 0, 0, 26>>>>), Set("m", "Header.Xid", t.Header.Xid),
+                                         Set("m", "VendorData", Ref("d"))>>)
 GoType(t) == CASE t.T = "Header" -> "*common.Header" [] t.T = "Hello" -> "*common.Hello" [] OTHER -> "*openflow13." \o t.T
 =============================================================================
